@@ -476,6 +476,9 @@ static std::vector<Config> configsC06(int tier) {
 	// 2 producers || 1 consumer with two ops (slot recycling: consume then enqueue again)
 	std::vector<Prog> cons2s = {{O_PROCESS, O_PROCESS}, {O_PROCESS_ONE, O_PROCESS}, {O_TAKE, O_PROCESS_ONE}, {O_PROCESS_IF_ODD, O_PROCESS}, {O_CLEAR, O_PROCESS}, {O_PROCESS_UNTIL_EVEN, O_TAKE}, {O_PEEK, O_TAKE}};
 	addConfigs(v, {{{O_ENQ}, {O_ENQ, O_ENQ}}, {{O_ENQ}}, cons2s});
+	// a producer with three events || a consumer of one || clearEvents/process: the third enqueue takes a recycled slot (free list
+	// non-empty) while events are pending - the only way to have the free-list path of enqueue overlap a consumer's list handling
+	addConfigs(v, {{{O_ENQ, O_ENQ, O_ENQ}}, {{O_PROCESS_ONE}, {O_TAKE}}, {{O_CLEAR}, {O_PROCESS}}});
 	if(tier >= 1) {
 		// 2 producers || 2 consumers (4 threads)
 		std::vector<Prog> c4 = {{O_PROCESS}, {O_PROCESS_ONE}, {O_TAKE}, {O_PROCESS_IF_ODD}, {O_CLEAR}};
